@@ -5,8 +5,9 @@ Property theorems only, over the faithful model of `decrypt_kdbx4` / `read_hmac_
 *arbitrary* bytes.  What the reader accepts was verified: every accepted block under the MAC key of its own
 index (`blocks_authenticated`), the header under the header MAC key (C04).  Under the idealisation that a MAC
 verifies only for what the honest writer authenticated (`Unforgeable`, a hypothesis), the accepted data is a
-prefix of the original blocks; a stream may end without the empty terminator (`unterminated_witness`), which is
-why the full statement needs `PrefixRejects` (see DESIGN.md).
+prefix of the original blocks (`C05_blocks_prefix`) that is followed by a verified empty end-of-stream block; when the
+only empty block the writer authenticated is that of the end of the stream, the accepted data is the whole original data
+(`C05_blocks_whole`).  Before the repair of F21 the reader accepted a stream that simply stopped (see DESIGN.md).
 -/
 namespace Kp.Fmt
 
@@ -22,21 +23,21 @@ theorem blocks_authenticated (P : Prims) (hk : Bytes) (whole : Bytes) :
     ∀ (fuel : Nat) (pre rest : Bytes) (idx : Nat) (out r : Bytes), whole = pre ++ rest →
       readBlocks P hk fuel rest idx out = .ok r →
       ∃ bs : List Bytes, r = out ++ bs.flatten ∧ (∀ b ∈ bs, b ≠ [])
-        ∧ ∀ j (hj : j < bs.length), Verified P hk whole (idx + j) bs[j] := by
+        ∧ (∀ j (hj : j < bs.length), Verified P hk whole (idx + j) bs[j])
+        ∧ (rest.length < fuel → Verified P hk whole (idx + bs.length) []) := by
   intro fuel
   induction fuel with
   | zero =>
     intro pre rest idx out r _ h
     simp only [readBlocks] at h
     injection h with h
-    exact ⟨[], by simp [h], by simp, by simp⟩
+    exact ⟨[], by simp [h], by simp, by simp, fun hl => absurd hl (Nat.not_lt_zero _)⟩
   | succ fuel ih =>
     intro pre rest idx out r hw h
     rw [readBlocks] at h
     simp only [] at h
     split at h
-    · injection h with h
-      exact ⟨[], by simp [h], by simp, by simp⟩
+    · cases h
     · split at h
       · cases h
       · split at h
@@ -64,15 +65,32 @@ theorem blocks_authenticated (P : Prims) (hk : Bytes) (whole : Bytes) :
                   rw [← hblock]; exact List.take_append_drop ..
                 rw [List.append_assoc, List.append_assoc, e3, e2, e1]
               split at h
-              · injection h with h
-                exact ⟨[], by simp [h], by simp, by simp⟩
+              · rename_i hz0
+                injection h with h
+                refine ⟨[], by simp [h], by simp, by simp, fun _ => ?_⟩
+                have hb0 : block = [] := by
+                  apply List.eq_nil_of_length_eq_zero
+                  rw [hbl]; exact hz0
+                refine ⟨sizeBytes, hsbl, by simp [hz0], ?_⟩
+                simp only [List.length_nil, Nat.add_zero, List.append_nil]
+                rw [← hb0, ← hmaceq, hw]
+                refine ⟨pre, block ++ ((rest.drop 32).drop 4).drop (le32 sizeBytes), ?_⟩
+                conv => rhs; rw [hrest]
+                simp [List.append_assoc]
               · rename_i hz
                 have hw' : whole = (pre ++ (mac ++ sizeBytes ++ block)) ++ ((rest.drop 32).drop 4).drop (le32 sizeBytes) := by
                   rw [hw]
                   conv => lhs; rw [hrest]
                   simp [List.append_assoc]
-                obtain ⟨bs, hr, hnonempty, hver⟩ := ih _ _ (idx + 1) (out ++ block) r hw' h
-                refine ⟨block :: bs, by rw [hr]; simp [List.append_assoc], ?_, ?_⟩
+                obtain ⟨bs, hr, hnonempty, hver, hterm⟩ := ih _ _ (idx + 1) (out ++ block) r hw' h
+                refine ⟨block :: bs, by rw [hr]; simp [List.append_assoc], ?_, ?_, ?_⟩
+                rotate_left 2
+                · intro hl
+                  have hlen : (((rest.drop 32).drop 4).drop (le32 sizeBytes)).length < fuel := by
+                    simp only [List.length_drop]; omega
+                  have := hterm hlen
+                  rw [show idx + (block :: bs).length = idx + 1 + bs.length by simp; omega]
+                  exact this
                 · intro b hb
                   cases hb with
                   | head => intro hb0; rw [hb0] at hbl; simp at hbl; omega
@@ -101,9 +119,9 @@ def Unforgeable (P : Prims) (hk : Bytes) (parts : List Bytes) (stream' : Bytes) 
 theorem C05_blocks_prefix (P : Prims) (hk : Bytes) (parts : List Bytes) (stream' r : Bytes)
     (hu : Unforgeable P hk parts stream')
     (h : readBlocks P hk (stream'.length + 1) stream' 0 [] = .ok r) :
-    ∃ m, r = (parts.take m).flatten := by
-  obtain ⟨bs, hr, hne, hver⟩ := blocks_authenticated P hk stream' (stream'.length + 1) [] stream' 0 [] r (by simp) h
-  refine ⟨bs.length, ?_⟩
+    ∃ m, r = (parts.take m).flatten ∧ Verified P hk stream' m [] := by
+  obtain ⟨bs, hr, hne, hver, hterm⟩ := blocks_authenticated P hk stream' (stream'.length + 1) [] stream' 0 [] r (by simp) h
+  refine ⟨bs.length, ?_, by simpa using hterm (by omega)⟩
   rw [hr, List.nil_append]
   congr 1
   apply List.ext_getElem?
@@ -173,14 +191,29 @@ theorem C05_header_mac_verified (P : Prims) (data : Bytes) (comp : Bytes) (d : D
                     simpa using hm
                   exact ⟨hdr, hstart, tk, rfl, hk, by rw [← hhd, ← hshaeq]; exact hs2, by rw [← hhd, ← hmeq]; exact hs3⟩
 
-/-- the reader accepts a block stream that ends without the empty terminator block: the reason the full
-    statement of C05 needs the `PrefixRejects` hypothesis on the dependencies (DESIGN.md §7 C05) -/
+/-- **C05_blocks_whole** (after the repair of F21: a stream that stops without the empty end-of-stream block is rejected):
+    under `Unforgeable`, and when the only empty block the honest writer authenticated is the end-of-stream block (index
+    `parts.length`) — the same idealisation of HMAC, for the empty block —, whatever the attacker did to the block stream the data
+    the reader accepts is the *whole* original data, never a strict prefix of it -/
+theorem C05_blocks_whole (P : Prims) (hk : Bytes) (parts : List Bytes) (stream' r : Bytes)
+    (hu : Unforgeable P hk parts stream') (hend : ∀ i, Verified P hk stream' i [] → i = parts.length)
+    (h : readBlocks P hk (stream'.length + 1) stream' 0 [] = .ok r) : r = parts.flatten := by
+  obtain ⟨m, hr, hv⟩ := C05_blocks_prefix P hk parts stream' r hu h
+  rw [hr, hend m hv, List.take_length]
+
+/-- a block stream that ends without the empty end-of-stream block is rejected (before the repair of F21 it was accepted:
+    `Database::get_xml` returned a strict prefix of the inner XML of an uncompressed file cut at a block boundary) -/
 def witnessPrims : Prims :=
   ⟨fun _ => [], fun _ => [], fun _ _ => List.replicate 32 0, fun _ _ _ => [], fun _ _ _ _ _ _ _ => none,
    fun _ _ _ _ => none, fun _ _ _ _ => none, fun x => x, fun x => some x⟩
 
-theorem unterminated_witness :
-    readBlocks witnessPrims [] 10 (blockBytes witnessPrims [] 0 [7, 7]) 0 [] = .ok [7, 7] := by
+theorem unterminated_rejected :
+    readBlocks witnessPrims [] 10 (blockBytes witnessPrims [] 0 [7, 7]) 0 [] = .err .integrity := by
+  decide
+
+/-- … and the same stream with its end-of-stream block is read whole -/
+theorem terminated_accepted :
+    readBlocks witnessPrims [] 10 (blockBytes witnessPrims [] 0 [7, 7] ++ blockBytes witnessPrims [] 1 []) 0 [] = .ok [7, 7] := by
   decide
 
 end Kp.Fmt
